@@ -109,4 +109,26 @@ def greedy (p : CParams) (h : Hash) : Nat → Bytes → Option (List Bytes)
         if pos = 0 then some []
         else (greedy p h fuel (s.drop pos)).map (s.take pos :: ·)
 
+/-! ## handing the stream over through buffers the producer reuses
+
+A piece is handed over as a buffer object.  By the iterator protocol the producer may rewrite that object as soon as it
+is asked for the following piece (the `readinto()` / single scratch buffer idiom, or any lazily evaluated producer whose
+`next()` has side effects on what it yielded before).  `now` = the bytes in the buffer when it was yielded (the stream
+that was handed over), `later` = what the same object reads as after the producer has been asked for the following piece
+(or has been told that the consumer is finished).  `later` is arbitrary: nothing below assumes anything about it. -/
+structure Handed where
+  now : Bytes
+  later : Bytes
+deriving Repr, DecidableEq
+
+/-- the bytes the adapter appends to its reassembly buffer for every piece: the adapter reads piece N (`buffer += chunk`)
+either before or after it requests piece N+1 -/
+def seenPieces (copyFirst : Bool) (hs : List Handed) : List Bytes :=
+  hs.map fun x => if copyFirst then x.now else x.later
+
+/-- `gclmulchunker.__call__` over such a producer; the order of "read piece N" and "request piece N+1" is the one
+extracted from the source (`Gen.adapterCopiesBeforePull`, tools/sections/10_handover.py) -/
+def chunkAllHanded (p : CParams) (h : Hash) (hs : List Handed) : Option (List Bytes) :=
+  chunkAll p h (seenPieces Gen.adapterCopiesBeforePull hs)
+
 end Replicat
